@@ -221,7 +221,8 @@ def oracle_sel(c, go, strict):
     nows = [o["_now"] for o in c["obs"]]
     mono = all(a <= b for a, b in zip(nows, nows[1:])) and (strict or ZERO not in nows)
     honest = all(0.0 <= flt(d["raw_conf"]) <= 1.0 for d in go)
-    st = dict(passing=0, held=0, changes=0, lowconf=0, notallowed=0, zero_forgets=0)
+    st = dict(passing=0, held=0, changes=0, lowconf=0, notallowed=0, zero_forgets=0, pairwise=0)
+    prevT = None      # clock reading of the previous gate-passing decision (recorded or held)
     for i, (o, d) in enumerate(zip(c["obs"], go)):
         now, mode, conf = o["_now"], d["mode"], flt(d["conf"])
         if not (mode == "none" or is_allowed(mode)):
@@ -251,6 +252,11 @@ def oracle_sel(c, go, strict):
                 bad.append("decision %d changes mode %r -> %r %d ns after the recorded decision, MinStabilityPeriod is %d ns" % (
                     i, pm, mode, sat(now - T), stab))
         changed = pm is None or pm != mode
+        # diagnostic, not a gate: the literal pairwise reading (C19_stability_pairwise_refuted) - the mode changes less
+        # than the period after the previous gate-passing decision because that one was held and did not restart the period
+        if prevT is not None and pm != mode and sat(now - prevT) < stab:
+            st["pairwise"] += 1
+        prevT = now
         if changed:
             st["changes"] += 1
             if mono and C is not None and sat(now - C) < stab:
@@ -372,16 +378,24 @@ def gen_configs(rng, nops):
             (toggled, toggles)]
 
 
-def dict_oracle(ops):
-    d, res = {}, []
-    for o in ops:
+def dict_oracle(ops, impl_res=None):
+    """Last successful write wins, delete removes.  A write the library refuses (a limitation that does not depend on
+    the configuration, e.g. 'object header full ... continuation blocks not yet supported' - the business of C02/C16)
+    must leave the previous value: the oracle takes the ok/err of WRITES from the implementation and predicts
+    everything else (ok/err of deletes, the content)."""
+    d, res, refused = {}, [], 0
+    for i, o in enumerate(ops):
         if o["op"] == "set":
+            if impl_res is not None and i < len(impl_res) and impl_res[i] == "err":
+                res.append("err")
+                refused += 1
+                continue
             d[o["name"]] = o
             res.append("ok")
         else:
             res.append("ok" if o["name"] in d else "err")
             d.pop(o["name"], None)
-    return d, res
+    return d, res, refused
 
 
 def render(o):
@@ -416,7 +430,7 @@ def run(ctx):
     res = vlib.run_harness_parallel(H, "c19sel", [strip(c) for c in cases])
     decisions = 0
     situations = set()
-    agg = dict(passing=0, held=0, changes=0, lowconf=0, notallowed=0, zero_forgets=0)
+    agg = dict(passing=0, held=0, changes=0, lowconf=0, notallowed=0, zero_forgets=0, pairwise=0)
     pybad = {}
     usable = []
     for ci, (c, r) in enumerate(zip(cases, res)):
@@ -555,6 +569,7 @@ def run(ctx):
     dense_hist = dense_del_hist = 0
     oracle_dis = []
     cross_dis = 0
+    refused_sets, refused_msgs = 0, set()
     by_hist = {}
     for (h, k), c, r in zip(meta, cfg_cases, cres):
         by_hist.setdefault(h, []).append((k, c, r))
@@ -562,7 +577,10 @@ def run(ctx):
         k0, c0, r0 = runs[0]
         ops = c0["ops"]
         attr_ops += len(ops) * len(runs)
-        d, exp_res = dict_oracle(ops)
+        d, exp_res, nref = dict_oracle(ops, r0.get("ops"))
+        refused_sets += nref
+        if nref:
+            refused_msgs.update(e.split(":", 1)[1][:60] for e in r0.get("errs", []) if ops[int(e.split(":", 1)[0])]["op"] == "set")
         live, mx, dd = set(), 0, False
         for o in ops:
             if o["op"] == "set":
@@ -669,12 +687,14 @@ def run(ctx):
         samples=samples,
         selector=dict(cases=len(cases), decisions=decisions, model_evaluations_in_coq=decisions, expected_code=("repaired" if patched else "as found"),
                       gate_passing=agg["passing"], stability_held=agg["held"], mode_changes=agg["changes"], low_confidence=agg["lowconf"],
-                      not_allowed=agg["notallowed"], zero_instant_forgets=agg["zero_forgets"], distinct_situations=len(situations),
+                      not_allowed=agg["notallowed"], zero_instant_forgets=agg["zero_forgets"],
+                      mode_changes_sooner_than_period_after_a_held_decision=agg["pairwise"], distinct_situations=len(situations),
                       scripted_cases=sum(1 for c in cases if c["strategy"] == "script")),
         evaluate_pipeline=dict(cases=len(ecases), evaluations=evals, workload_types=wtypes),
         content=dict(histories=nhist, configurations_per_history=7, attribute_ops=attr_ops, histories_reaching_dense=dense_hist,
                      histories_deleting_while_dense=dense_del_hist, cross_configuration_differences=cross_dis,
-                     dict_oracle_disagreements=len(oracle_dis)),
+                     dict_oracle_disagreements=len(oracle_dis),
+                     writes_refused_by_the_library_in_every_configuration=refused_sets, refusal_messages=sorted(refused_msgs)[:5]),
         delete_entry_points=dict(groups=ndel, deletes=del_ops),
         programs=len(cases) + len(ecases) + len(cfg_cases) + len(dcases),
         disagreements_checked=decisions + evals + len(cfg_cases) + len(dcases),
